@@ -9,6 +9,15 @@ TB = ("trusted base: rustc's MIR construction and Instance resolution for the re
       "mir-opt-level 0, overflow checks on), the fact extractor /verif/driver, std/rpds/arcstr behaving as documented")
 
 CLAIMS = {
+ 'C03': dict(
+   technique="type-graph sharing inventory (rustc ADT facts) + who-may-call on alias-producing APIs + raw-pointer/unsafe/static inventory (custom extractor, Python rules)",
+   text=("Static, aliasing argument: every pointer or cell through which a derived State::clone can share storage with the original is in a "
+         "reviewed inventory; the only way to obtain a mutable view of a shared pointee is Bitstr::data_mut = Rc::make_mut(..).to_mut() (copies "
+         "when shared); no raw pointers, no unsafe outside the reviewed sites, no static/thread-local state, nondeterminism only in the "
+         "excluded words; REPL/C-API snapshots are direct clones. With rpds/arcstr/std as trusted base this is sufficient for isolation of "
+         "clones except through host objects (Cell::AnyRc), whose five mutation sites in d2_plugin are listed known findings. 'Same results on "
+         "re-run' follows for a deterministic interpreter; it is not measured."),
+   ref='§3 C03'),
  'C17': dict(
    technique="MIR lock-step (paired-write) analysis of code/debug_map, fetch-path and error-exit path analysis, guard control-dependence (custom extractor, Python rules)",
    text=("Static: line/column arithmetic is value-level and not decided; the mechanism that makes the right token available is. Every function "
